@@ -261,9 +261,29 @@ def callClose {c : SBody} (m : MonId) (op : Op) (sys : Sys c) : Sys c × CallOut
   | (s, .pending _) => (s, .raised (.runtime Proto.rtIgnoredGenExit))
   | x => x
 
-/-- `BoundMonitor` forwards every method to the monitor with its stored coroutine (one extra
-    coroutine frame, which PEP 380 makes transparent); `await bound` is `aawait(None)`. -/
+/-- `BoundMonitor` forwards every method to the monitor with its stored coroutine; `await bound` is
+    `aawait(None)`.  Starting and resuming a bound call is the monitor's call (`boundStart = callStart`);
+    the one observable effect of the extra coroutine frame is PEP 380's treatment of a thrown
+    GeneratorExit: the inner call is closed with `close()`, and when that succeeds (even by the
+    inner call *returning*, as `aclose` does) GeneratorExit is raised in the BoundMonitor frame. -/
 def boundAwait : Op := .aawait 0
+
+def boundStart {c : SBody} (m : MonId) (op : Op) (sys : Sys c) : Sys c × CallOut := callStart m op sys
+
+def boundResume {c : SBody} (m : MonId) (op : Op) (r : Resume) (sys : Sys c) : Sys c × CallOut :=
+  match r with
+  | .throw .genExit =>
+    match callResume m op r sys with
+    | (s, .returned _) => (s, .raised .genExit)
+    | x => x
+  | _ => callResume m op r sys
+
+def boundClose {c : SBody} (m : MonId) (op : Op) (sys : Sys c) : Sys c × CallOut :=
+  match boundResume m op (.throw .genExit) sys with
+  | (s, .raised .genExit) => (s, .returned 0)
+  | (s, .returned _) => (s, .returned 0)
+  | (s, .pending _) => (s, .raised (.runtime Proto.rtIgnoredGenExit))
+  | x => x
 
 /-! ### nesting: a parent body that drives a sub-coroutine through monitors -/
 
@@ -272,7 +292,11 @@ def boundAwait : Op := .aawait 0
 inductive PStep (σ : Type) where
   | yield (y : Val) (s : σ)
   | oob (m : MonId) (d : Val) (s : σ) (refused : Unit → PStep σ)
-  | sub (m : MonId) (op : Op) (s : σ) (k : Resume → PStep σ)   -- `s`: the parent's state while it waits
+  | sub (m : MonId) (op : Op) (s : σ) (k : Option Resume → Resume → PStep σ)
+    -- `s`: the parent's state while it waits.  `k how result`: `how = none` when the sub-call
+    -- finished within the same activation, `some r` when the parent was re-activated from outside
+    -- with `r` while waiting (its reaction may depend on it: PEP 380 delivers a GeneratorExit to
+    -- nested frames of the parent with close())
   | ret (v : Val) (s : σ)
   | raise (e : Exc) (s : σ)
 
@@ -283,7 +307,7 @@ structure PBody where
 
 inductive NSt (σp : Type) (σc : Type) where
   | at (s : σp) (cc : CSt σc)
-  | inSub (m : MonId) (op : Op) (s : σp) (k : Resume → PStep σp) (cc : CSt σc)
+  | inSub (m : MonId) (op : Op) (s : σp) (k : Option Resume → Resume → PStep σp) (cc : CSt σc)
 
 def CallOut.toResume : CallOut → Resume
   | .returned v => .send v
@@ -298,8 +322,8 @@ def nestRun (p : PBody) (c : SBody) : PStep p.σ → CSt c.σ → Env → SRes (
   | .sub m op s k, cc, env =>
     match callStart m op (⟨cc, env⟩ : Sys c) with
     | (⟨cc', env'⟩, .pending y) => .yield y (.inSub m op s k cc') env'
-    | (⟨cc', env'⟩, .returned v) => nestRun p c (k (.send v)) cc' env'
-    | (⟨cc', env'⟩, .raised e) => nestRun p c (k (.throw e)) cc' env'
+    | (⟨cc', env'⟩, .returned v) => nestRun p c (k none (.send v)) cc' env'
+    | (⟨cc', env'⟩, .raised e) => nestRun p c (k none (.throw e)) cc' env'
   | .ret v s, cc, env => .ret v (.at s cc) env
   | .raise e s, cc, env => .raise e (.at s cc) env
 
@@ -312,7 +336,7 @@ def nest (p : PBody) (c : SBody) : SBody where
     | .inSub m op s k cc =>
       match callResume m op r (⟨cc, env⟩ : Sys c) with
       | (⟨cc', env'⟩, .pending y) => .yield y (.inSub m op s k cc') env'
-      | (⟨cc', env'⟩, .returned v) => nestRun p c (k (.send v)) cc' env'
-      | (⟨cc', env'⟩, .raised e) => nestRun p c (k (.throw e)) cc' env'
+      | (⟨cc', env'⟩, .returned v) => nestRun p c (k (some r) (.send v)) cc' env'
+      | (⟨cc', env'⟩, .raised e) => nestRun p c (k (some r) (.throw e)) cc' env'
 
 end Asynkit.Monitor
